@@ -39,6 +39,7 @@ CONSTS = {"CHUNK_ALIGN", "FOOTER_SIZE", "OVERHEAD", "TYPICAL_PAGE_SIZE", "DEFAUL
 # ---- types -------------------------------------------------------------------------------------------------
 NAT, BOOL, UNIT, LAYOUT, DETAILS, CHUNK, ORD, BUMP = "nat", "bool", "unit", "layout", "details", "chunk", "ordering", "bump"
 RAWVEC, RERR, STRATEGY, FALLIB = "rawvec", "rerr", "strategy", "fallibility"
+CHUNKLIST, CELLPREV = "chunklist", "cellprev"
 
 
 def res2(t): return ("res2", t)
@@ -59,6 +60,7 @@ def lean_ty(t):
     if isinstance(t, tuple) and t[0] in ("opt", "res"): return f"(Option {lean_ty(t[1])})"
     if isinstance(t, tuple) and t[0] == "res2": return f"(Except V.RErr {lean_ty(t[1])})"
     if t == RERR: return "V.RErr"
+    if t == CHUNKLIST: return "(List Chunk)"
     if t == STRATEGY: return "Rs.Strategy"
     if t == FALLIB: return "Rs.Fallibility"
     if isinstance(t, tuple) and t[0] == "tuple": return "(" + " × ".join(lean_ty(x) for x in t[1]) + ")"
@@ -114,6 +116,7 @@ FUNCS = [
     Fn("is_empty", "chunk", "read", group="Footer", anchor="impl ChunkFooter"),
     Fn("set_ptr", "chunk", "st", group="Footer", anchor="impl ChunkFooter"),
     Fn("try_alloc_layout_fast", "bump", "st", group="Fast"),
+    Fn("reset", "bump", "st", group="Reset"),
     Fn("is_last_allocation", "bump", "read", group="Realloc"),
     Fn("try_alloc_layout", "bump", "st", group="Realloc"),
     Fn("dealloc", "bump", "st", group="Realloc", anchor="unsafe fn is_last_allocation"),
@@ -199,6 +202,12 @@ class Tr:
         self.ret = rust_ty(sig["ret"])
         self.st = fn.mode == "st"
         self.lifted = []
+        # soundness guard for chunk-typed locals: a `let f = self.current_chunk_footer.get()` is a *pointer* in the source
+        # but a snapshot of the footer's fields here; reading a mutable field (finger, allocated_bytes) through such a
+        # local is only translated while no state-changing call happened since it was bound
+        self.version = 0
+        self.next_version = 1
+        self.chunk_ver = {}
         # the threaded state: the arena model's `s : St`, or for RawVec methods the vector `v : V.VS`
         if fn.kind == "rawvec":
             self.sv, self.sty, self.bindS, self.pureS = "v", "V.VS", "RsV.bindV", "RsV.pureV"
@@ -253,6 +262,10 @@ class Tr:
     def bind_call(self, call, callee_mode, k, env, ty):
         """call = lean application without the state argument; result bound to a fresh name"""
         env2, v = env.bind("r", ty)
+        if callee_mode == "st":
+            self.bump_version()
+        if ty == CHUNK:
+            self.chunk_ver[v] = self.version
         body = k(v, ty, env2)
         if callee_mode in ("pure", "read"):
             if self.st:
@@ -261,6 +274,10 @@ class Tr:
         if not self.st:
             raise Untranslatable(f"{self.fn.name} is translated without state but calls the stateful {call}")
         return f"({self.bindS} ({call} {self.sv}) fun {self.sv} {v} =>\n{body})"
+
+    def bump_version(self):
+        self.version = self.next_version
+        self.next_version += 1
 
     def check(self, cond, why, rest, asserting=False):
         return f"(if {cond} then\n{rest}\nelse {self.panic() if asserting else self.bad(why)})"
@@ -287,7 +304,10 @@ class Tr:
             params.append(f"({ln} : {lean_ty(mty)})")
         if self.st or self.mode == "read":
             params.append(f"({self.sv} : {self.sty})")
+        saved_version = self.version
+        self.bump_version()
         body = k(vname if ty != UNIT else "()", ty, envj)
+        self.version = saved_version
         self.lifted.append(f"def {name} {' '.join(self.lead)} {' '.join(params)} : {self.ret_lean_ty()} :=\n{indent(body)}\n")
         lead_args = " ".join(self.lead_names)
         cap_args = " ".join(ln for ln, _ in captured)
@@ -397,6 +417,11 @@ class Tr:
                 return None
             if ty == CHUNK:
                 m = {"ptr": ("ptr", ("cell", NAT)), "data": ("data", NAT), "allocated_bytes": ("ab", NAT)}
+                if f in ("ptr", "allocated_bytes", "prev") and re.fullmatch(r"[A-Za-z_][A-Za-z0-9_]*", t) \
+                        and self.chunk_ver.get(t, self.version) != self.version:
+                    raise Untranslatable(f"read of the mutable field `{f}` through the local `{t}` after the arena state changed "
+                                         "(the local is a pointer in the source, a snapshot here)")
+                if f == "prev": return t, CELLPREV
                 if f in m: return f"{paren(t)}.{m[f][0]}", m[f][1]
                 if f == "layout": return f"(Rs.Layout.mk {paren(t)}.size {paren(t)}.align)", LAYOUT
                 return None
@@ -421,6 +446,8 @@ class Tr:
             if any(x is None for x in pa): return None
             if isinstance(ty, tuple) and ty[0] == "cell" and name == "get" and not args:
                 return t, ty[1]
+            if ty == CELLPREV and name == "get" and not args:
+                return f"(Rs.chunk_prev E {self.sv} {paren(t)})", CHUNK
             if ty in (NAT, CHUNK) and name in ("as_ptr", "as_ref", "as_mut", "get", "as_non_null_ptr") and not args:
                 return t, ty
             if ty == CHUNK and name == "cast" and not args:
@@ -689,7 +716,9 @@ class Tr:
             vty = self.value_type(then, env_) if els is not None else UNIT
             pre, kj = self.join(k, vty, env_, mutated, nfall)
             kb = K(lambda t, ty, eb: kj(t, ty, eb.restrict_to(env_)), True)
+            ver = self.version
             a = self.E(then, env_, kb)
+            self.version = ver
             b = self.E(els, env_, kb) if els is not None else kj("()", UNIT, env_)
             return f"({pre}if {tc} then\n{a}\nelse\n{b})"
         return self.E(c, env, K(kc))
@@ -705,7 +734,9 @@ class Tr:
             vty = self.value_type(then, env2) if els is not None else UNIT
             pre, kj = self.join(k, vty, env_, mutated, nfall)
             kb = K(lambda t, ty, eb: kj(t, ty, eb.restrict_to(env_)), True)
+            ver = self.version
             a = self.E(then, env2, kb)
+            self.version = ver
             b = self.E(els, env_, kb) if els is not None else kj("()", UNIT, env_)
             return f"({pre}match {ts} with\n| {lp} =>\n{a}\n| _ =>\n{b})"
         return self.E(scrut, env, K(ks))
@@ -731,7 +762,9 @@ class Tr:
                     vty = self.value_type(body, env2)
             pre, kj = self.join(k, vty or UNIT, env_, mutated, nfall)
             kb = K(lambda t, ty, eb: kj(t, ty, eb.restrict_to(env_)), True)
+            ver = self.version
             for env2, lp, body in prep:
+                self.version = ver
                 out.append(f"| {lp} =>\n{self.E(body, env2, kb)}")
             return f"({pre}match {ts} with\n" + "\n".join(out) + ")"
         return self.E(scrut, env, K(ks))
@@ -788,6 +821,8 @@ class Tr:
                 return k(pp[0], pp[1], env_)
             if segs[-2:] == ["ptr", "copy_nonoverlapping"] and len(pa) == 3:
                 return self.bind_call(f"Rs.copy_nonoverlapping {sp(pa)}", "st", k, env_, UNIT)
+            if segs == ["dealloc_chunk_list"] and len(pa) == 1 and pa[0][1] == CHUNKLIST:
+                return self.bind_call(f"Rs.dealloc_chunk_list {sp(pa)}", "st", k, env_, UNIT)
             if segs[-2:] == ["ptr", "copy"] and len(pa) == 3:
                 return self.bind_call(f"Rs.copy {sp(pa)}", "st", k, env_, UNIT)
             g = FN_BY_KIND.get(("free", n)) if len(segs) == 1 else (FN_BY_KIND.get(("assoc", n)) if segs[0] == "Self" else None)
@@ -809,7 +844,14 @@ class Tr:
             lead = ["M"]
         if g.kind == "chunk":
             lead.append(paren(recv))
-        call = " ".join([f"Gen.Fn.{g.lean}"] + lead + [paren(t) for t, _ in pa])
+        ptys = [rust_ty(t) for n_, t in g.sig["params"] if n_ != "self"]
+        coerced = []
+        for i, (t, ty) in enumerate(pa):
+            if ty == CHUNK and i < len(ptys) and ptys[i] == NAT:
+                coerced.append(f"{paren(t)}.footer")
+            else:
+                coerced.append(paren(t))
+        call = " ".join([f"Gen.Fn.{g.lean}"] + lead + coerced)
         if g.mode == "read":
             call += " " + self.sv
         vty = rty
@@ -822,6 +864,7 @@ class Tr:
 
     def bind_call_raw(self, call, k, env, ty):
         env2, v = env.bind("r", ty)
+        self.bump_version()
         return f"({self.bindS} ({call} {self.sv}) fun {self.sv} {v} =>\n{k(v, ty, env2)})"
 
     def MCALL(self, e, env, k):
@@ -893,6 +936,8 @@ class Tr:
                     return self.bind_call(f"Rs.next_power_of_two {paren(t)}", "pure", k, env2, NAT)
                 if ty == CHUNK and ("chunk", name) in FN_BY_KIND:
                     return self.call_fn(FN_BY_KIND[("chunk", name)], t, pa, env2, k)
+                if ty == CELLPREV and name == "replace" and len(pa) == 1 and pa[0][1] == CHUNK:
+                    return self.bind_call(f"Rs.chunk_prev_replace E {paren(t)} {paren(pa[0][0])}", "st", k, env2, CHUNKLIST)
                 if isinstance(ty, tuple) and ty[0] == "cell" and name == "set" and len(pa) == 1:
                     # the only cells: a chunk's finger, the arena's current chunk, the arena's limit
                     m = re.fullmatch(r"\(?(.*?)\)?\.ptr", t)
@@ -925,6 +970,9 @@ class Tr:
                 def kl(t, ty, e2):
                     if pat[0] == "pid":
                         e3, ln = e2.bind(pat[1], ty)
+                        if ty == CHUNK:
+                            # a copy of another local keeps that local's age; a fresh read of the arena is current
+                            self.chunk_ver[ln] = self.chunk_ver.get(t, self.version) if re.fullmatch(r"[A-Za-z_][A-Za-z0-9_]*", t) else self.version
                         return f"let {ln} := {t};\n{go(i + 1, e3)}"
                     if pat[0] == "pwild":
                         return go(i + 1, e2)
@@ -941,6 +989,13 @@ class Tr:
                 return self.E(init, env_, K(kl))
             if st[0] == "assign":
                 op, lhs, rhs = st[1], st[2], st[3]
+                if lhs[0] == "field" and lhs[2] == "allocated_bytes" and op == "=":
+                    def kc(tc, tyc, e2):
+                        if tyc != CHUNK:
+                            raise Untranslatable(f"assignment to .allocated_bytes of {tyc}")
+                        return self.E(rhs, e2, K(lambda tv, tyv, e3: self.bind_call(
+                            f"Rs.chunk_ab_set E {paren(tc)} {paren(tv)}", "st", K(lambda t_, ty_, e4: go(i + 1, e4)), e3, UNIT)))
+                    return self.E(lhs[1], env_, K(kc))
                 if lhs[0] != "path" or len(lhs[1]) != 1 or lhs[1][0] not in env_.d:
                     raise Untranslatable(f"assignment to {lhs}")
                 name = lhs[1][0]
@@ -1092,7 +1147,7 @@ def translate_all(repo):
 
 
 GROUP_IMPORTS = {"Arith": [], "Details": ["Arith"], "Limit": ["Arith"], "Footer": ["Arith"], "Fast": ["Arith", "Footer"],
-                 "Realloc": ["Arith", "Fast", "Footer", "Limit"], "RawVec": []}
+                 "Realloc": ["Arith", "Fast", "Footer", "Limit"], "RawVec": [], "Reset": ["Arith", "Footer"]}
 GROUP_PRELUDE = {"RawVec": "BumpVerif.Model.RsVec"}
 
 
